@@ -11,6 +11,13 @@
 (* complete tree is printed as the JSON image of tensora's IR dataclasses  *)
 (* (the format harness/vf/irjson.py reads and spec/IRMachine.tla runs).    *)
 (*                                                                         *)
+(* Root = "stmtR" adds the shapes on which branch- and scope-related        *)
+(* rewrites key: arms that open with a declaration ({ int t = e; S }),     *)
+(* possibly the SAME one in both arms, declarations that re-initialise a   *)
+(* live variable which the branch condition reads (x), and conditions      *)
+(* over x.  Declarations are function-scoped in the IR (as in the LLVM     *)
+(* lowering and in IRMachine); these trees are run on the machine only.    *)
+(*                                                                         *)
 (* Variables of the generated programs: x, y : integer; f, g : float;      *)
 (* p, q : boolean; a : int32_t* (read), fa : double* (read),               *)
 (* w : int32_t* (written by statements).                                   *)
@@ -72,6 +79,14 @@ StmtSet(d, scoped) ==   \* d = statement depth budget of the children
    Node("AssignArr", "w", <<Var("x"), Hole("int", ExprDepth)>>),
    EmptyBlock}
   \cup (IF scoped THEN {Node("Decl", "t", <<Hole("int", ExprDepth)>>)} ELSE {})
+  \cup (IF scoped /\ Root = "stmtR"
+        THEN {Node("Decl", "x", <<Hole("int", ExprDepth)>>)}
+             \cup {Node("Block", "", <<Node("Decl", v, <<Hole("int", ExprDepth)>>), Hole("stmt", 0)>>) : v \in {"t", "x"}}
+        ELSE {})
+  \cup (IF d > 0 /\ Root = "stmtR"
+        THEN {Node("Branch", "", <<c, Hole("stmtS", d - 1), Hole("stmtS", d - 1)>>) :
+                 c \in {Node("LessThan", "", <<Var("x"), IntLit(2)>>), Node("Equal", "", <<Var("x"), IntLit(0)>>)}}
+        ELSE {})
   \cup (IF d = 0 THEN {} ELSE
         {Node("Block", "", <<Hole("stmt", d - 1)>>),
          Node("Block", "", <<Hole("stmt", d - 1), Hole("stmt", d - 1)>>),
@@ -102,7 +117,7 @@ RECURSIVE Fill(_, _)
 Fill(t, s) == IF t.op = "Hole" THEN s
               ELSE LET i == FirstKid(t) IN [t EXCEPT !.kids[i] = Fill(t.kids[i], s)]
 
-Init == tree = IF Root = "stmt" THEN Hole("stmtS", StmtDepth) ELSE Hole(Root, ExprDepth)
+Init == tree = IF Root \in {"stmt", "stmtR"} THEN Hole("stmtS", StmtDepth) ELSE Hole(Root, ExprDepth)
 Derive == /\ Holes(tree) > 0
           /\ \E p \in Productions(FirstHole(tree)) : tree' = Fill(tree, p)
 Next == Derive
